@@ -274,3 +274,26 @@ Theorem C16_url_cosmetic_resources_roundtrip : forall as_css build_list l e tags
   url_cosmetic_resources_model h matches pr parsed (C08_Query_Model.net_blocker (Wire_Model.e_blocker e0)) c host dom.
 Proof. exact url_cosmetic_resources_roundtrip. Qed.
 Print Assumptions C16_url_cosmetic_resources_roundtrip.
+
+(* ---- `hostname_cosmetic_resources` itself, re-read from src/cosmetic_filter_cache.rs on every run
+   (tools/gen_fragments/c16_resources_structure.py -> Generated.ResGen): the chained hash lists, the
+   statements of the collecting and of the excepting pass with the bins and sets they connect, the
+   two shapes of the answer; interpreted over the model's state it IS the model, step by step and
+   as a whole, for every hash function, cache, host and generichide flag ---- *)
+From Adb Require Struct_Resources_Proofs.
+Theorem C16_src_pass1_is_populate_step : forall (d : hdb) (st : state) (hh : N),
+  Struct_Resources_Proofs.interp_pass1 d st hh = Some (populate_step d st hh).
+Proof. exact Struct_Resources_Proofs.interp_pass1_is_populate_step. Qed.
+Print Assumptions C16_src_pass1_is_populate_step.
+
+Theorem C16_src_pass2_is_prune_step : forall (d : hdb) (st : state) (hh : N),
+  Struct_Resources_Proofs.interp_pass2 d st hh = Some (prune_step d st hh).
+Proof. exact Struct_Resources_Proofs.interp_pass2_is_prune_step. Qed.
+Print Assumptions C16_src_pass2_is_prune_step.
+
+Theorem C16_src_hostname_cosmetic_resources_is_model :
+  forall (h : str -> N) (c : cache) (hostname dom : str) (gh : bool),
+  Struct_Resources_Proofs.interp_resources h c hostname dom gh =
+  Some (hostname_cosmetic_resources h c hostname dom gh).
+Proof. exact Struct_Resources_Proofs.interp_resources_is_model. Qed.
+Print Assumptions C16_src_hostname_cosmetic_resources_is_model.
